@@ -16,7 +16,7 @@ import (
 func init() {
 	vfRegister(&vfProp{
 		id:       "C15",
-		classes:  []string{"os", "os-alloc", "rs", "rs-alloc", "rs-park", "rs-park"},
+		classes:  []string{"os", "os-alloc", "rs", "rs-alloc", "rs-park", "rs-park", "inmem"},
 		gen:      c15Gen,
 		exec:     c15Exec,
 		maxSteps: 60000,
@@ -37,6 +37,9 @@ func c15Gen(class string, seed uint64, tier string) *vfScenario {
 		sc.Cfg["kind"], sc.Cfg["alloc"] = 1, 1
 	case "rs-park":
 		sc.Cfg["kind"], sc.Cfg["parkdata"] = 1, 1
+		sc.Cfg["alloc"] = int64(rng.IntN(2))
+	case "inmem":
+		sc.Cfg["kind"] = 3 // the package's own in-memory backend
 		sc.Cfg["alloc"] = int64(rng.IntN(2))
 	}
 	sc.Cfg["hopt"] = 1
